@@ -58,7 +58,7 @@ func runC17(c *Ctx) {
 	rec := c.Rec
 	r := mon.NewRand(uint64(c.Seed)).Sub(181000)
 	var keys []c17key
-	for _, bits := range []int{1024, 2047, 2048, 3072, 4096} {
+	for _, bits := range []int{1024, 2047, 2048, 2049, 2055, 3072, 4096} {
 		k := testkeys.RSA(bits)
 		keys = append(keys, c17key{name: fmt.Sprintf("rsa-%d", bits), signer: k, pub: &k.PublicKey, family: "rsa", rsaBits: bits})
 		keys = append(keys, c17key{name: fmt.Sprintf("foreign-signer-with-rsa-%d-public", bits), signer: foreignSigner{&k.PublicKey}, pub: nil, family: "rsa", rsaBits: bits})
@@ -161,7 +161,7 @@ func runC17(c *Ctx) {
 	}
 	var pairs []pairing
 	for _, a := range []cose.Algorithm{cose.AlgorithmPS256, cose.AlgorithmPS384, cose.AlgorithmPS512} {
-		for _, bits := range []int{2048, 3072} {
+		for _, bits := range []int{2048, 2049, 2055, 3072} {
 			k := testkeys.RSA(bits)
 			pairs = append(pairs, pairing{a, k, &k.PublicKey, fmt.Sprintf("rsa-%d", bits)})
 		}
